@@ -1,29 +1,188 @@
 import RedisVerif.Driver.Codec
 import RedisVerif.Props.C07
+import RedisVerif.Props.C07Lattice
 
 /-
   C07 sub-driver.  One line in, one line out:
     M <rv> | <rv>      → merged value, tie-consistency, well-formedness of the inputs
+    A <rv>             → every accessor of the value (replica universe 1..3, the harness' element
+                         and field universes), see `accessors`
+    C <rv> | <rv>      → CrdtValue level: try_merge, the deprecated merge, merge_with_timestamps, the
+                         lattice's own `==`
+    V <natmap> | <natmap>  → VectorClock: merge, happens_before both ways, concurrent_with, ==
+    K <stamp> | <stamp>    → LamportClock: cmp, merge (keeps self.replica_id), update, tick, max
+    U <mutator> …          → the mutators of lattice.rs / replicated_value.rs (see `mutate`)
 -/
 namespace RedisVerif.Driver.C07
 open RedisVerif RedisVerif.Driver
 
 def b01 (b : Bool) : String := if b then "1" else "0"
 
+/-- the harness' universes (harness/src/c07.rs `FIELDS`, `ELEMS`) -/
+def fieldU : List Bytes := [[102], [103], [97, 98], []]
+def elemU : List Bytes := [[97], [98], [122, 122], [195, 188]]
+
+def showOB : Option Bytes → String
+  | none => "~"
+  | some b => hexOfBytes b
+
+def accessors (a : RV) : String :=
+  let lww := match a.lww with | some r => showLww r | none => "-"
+  let hget := ",".intercalate (fieldU.map (fun f => showOB (a.hashGet (keyCode f))))
+  let hash := match a.getHash with | some h => toString h.length | none => "-"
+  let gc := match a.crdt.asGCounter with
+    | some c => s!"{GCounter.replicaCount c 1},{GCounter.replicaCount c 2},{GCounter.replicaCount c 3};{GCounter.value c};{b01 (GCounter.isEmpty c)}"
+    | none => "-"
+  let pn := match a.crdt.asPNCounter with
+    | some (p, n) => s!"{PNCounter.value p n};{b01 (PNCounter.isEmpty p n)}"
+    | none => "-"
+  let gs := match a.crdt.asGSet with
+    | some s => s!"{s.length};{b01 s.isEmpty};" ++ ",".intercalate (elemU.map (fun e => b01 (GSet.contains s (keyCode e))))
+    | none => "-"
+  let os := match a.crdt.asORSet with
+    | some (e, _) => s!"{ORSet.len e};{b01 (ORSet.len e == 0)};" ++ ",".intercalate (elemU.map (fun x =>
+        b01 (ORSet.contains e (keyCode x)) ++ ":" ++ (match ORSet.getTags e (keyCode x) with
+          | some t => "+".intercalate (t.map toString)
+          | none => "~")))
+    | none => "-"
+  let vc := match a.vc with
+    | some v => s!"{VClock.get v 1},{VClock.get v 2},{VClock.get v 3}"
+    | none => "-"
+  s!"get={showOB a.get} tomb={b01 a.isTombstone} type={a.crdtType} islww={b01 a.crdt.isLww} ishash={b01 a.isHash} lww={lww} hget={hget} hash={hash} gc={gc} pn={pn} gs={gs} os={os} vc={vc} exp={showOptNat a.expiry} stamp={a.ts.time}.{a.ts.rid} rf={showOptNat a.rf} rf3={a.getRf 3}"
+
+def latticeEq : Crdt → Crdt → String
+  | .gcounter a, .gcounter b => b01 (GCounter.eq a b)
+  | .pncounter p n, .pncounter p' n' => b01 (PNCounter.eq p n p' n')
+  | .gset a, .gset b => b01 (a == b)
+  | .orset a _, .orset b _ => b01 (ORSet.eq a b)
+  | _, _ => "-"
+
+def twoRV (tag : String) : P (RV × RV) := do
+  expect tag
+  let a ← rv
+  expect "|"
+  let b ← rv
+  pure (a, b)
+
+def mutate : P String := do
+  expect "U"
+  let m ← tok
+  match m with
+  | "ginc" => do
+    let a ← rv; let r ← nat; let n ← nat
+    match a.crdt with
+    | .gcounter c => pure (showRV { a with crdt := .gcounter (GCounter.incrementBy c r n) })
+    | _ => pure "n/a"
+  | "pinc" => do
+    let a ← rv; let r ← nat; let n ← nat
+    match a.crdt with
+    | .pncounter p q => pure (showRV { a with crdt := .pncounter (GCounter.incrementBy p r n) q })
+    | _ => pure "n/a"
+  | "pdec" => do
+    let a ← rv; let r ← nat; let n ← nat
+    match a.crdt with
+    | .pncounter p q => pure (showRV { a with crdt := .pncounter p (GCounter.incrementBy q r n) })
+    | _ => pure "n/a"
+  | "sadd" => do
+    let a ← rv; let e ← strKey
+    match a.crdt with
+    | .gset s => pure (s!"{showRV { a with crdt := .gset (GSet.add s e).1 }} new={b01 (GSet.add s e).2}")
+    | _ => pure "n/a"
+  | "oadd" => do
+    let a ← rv; let e ← strKey; let r ← nat
+    match a.crdt with
+    | .orset el nx =>
+      let x := ORSet.add el nx e r
+      pure (s!"{showRV { a with crdt := .orset x.1 x.2.1 }} tag={x.2.2}")
+    | _ => pure "n/a"
+  | "orem" => do
+    let a ← rv; let e ← strKey
+    match a.crdt with
+    | .orset el nx =>
+      let x := ORSet.remove el e
+      pure (s!"{showRV { a with crdt := .orset x.1 nx }} tags=" ++ "+".intercalate (x.2.map toString))
+    | _ => pure "n/a"
+  | "oapp" => do
+    let a ← rv; let e ← strKey; let ts ← natSet
+    match a.crdt with
+    | .orset el nx => pure (showRV { a with crdt := .orset (ORSet.applyRemove el e ts) nx })
+    | _ => pure "n/a"
+  | "vinc" => do
+    let v ← natMap; let r ← nat
+    pure (showNatMap (VClock.increment v r))
+  | "set" => do
+    let a ← rv; let v ← bytesTok; let c ← stamp
+    let t ← tok
+    let vc ← (if t == "-" then pure none else if t == "V" then do let m ← natMap; pure (some m) else failure : P (Option (NMap Nat)))
+    let x := a.set v c vc
+    pure (s!"{showRV x.1} clock={showStamp x.2.1} vc=" ++ (match x.2.2 with | some m => showNatMap m | none => "-"))
+  | "del" => do
+    let a ← rv; let c ← stamp
+    let x := a.delete c
+    pure (s!"{showRV x.1} clock={showStamp x.2}")
+  | "hset" => do
+    let a ← rv; let f ← strKey; let v ← bytesTok; let c ← stamp
+    let x := a.hashSet f v c
+    pure (s!"{showRV x.1} clock={showStamp x.2}")
+  | "hdel" => do
+    let a ← rv; let f ← strKey; let c ← stamp
+    let x := a.hashDelete f c
+    pure (s!"{showRV x.1} clock={showStamp x.2}")
+  | "rf" => do
+    let a ← rv; let n ← nat
+    pure (showRV (a.withRf n))
+  | "new" => do
+    -- constructors: ReplicatedValue::new / with_crdt(new_*) / with_value
+    let k ← tok; let r ← nat
+    match k with
+    | "rv" => pure (showRV (RV.new r))
+    | "lww" => pure (showRV (RV.withCrdt (Crdt.newLww r) r))
+    | "gcounter" => pure (showRV (RV.withCrdt Crdt.newGCounter r))
+    | "pncounter" => pure (showRV (RV.withCrdt Crdt.newPNCounter r))
+    | "gset" => pure (showRV (RV.withCrdt Crdt.newGSet r))
+    | "orset" => pure (showRV (RV.withCrdt Crdt.newORSet r))
+    | "hash" => pure (showRV (RV.withCrdt Crdt.newHash r))
+    | _ => failure
+  | _ => failure
+
 def step (line : String) : String :=
-  let p : P (RV × RV) := do
-    expect "M"
-    let a ← rv
-    expect "|"
-    let b ← rv
-    pure (a, b)
-  match runP p line with
-  | none => "bad-op"
-  | some (a, b) =>
-    let m := RV.merge a b
-    let tie := decide (RedisVerif.C07.TieConsistent a b)
-    let wfa := decide a.WF
-    let wfb := decide b.WF
-    s!"{showRV m} tie={b01 tie} wf={b01 wfa}{b01 wfb}"
+  match tokens line with
+  | "M" :: _ =>
+    match runP (twoRV "M") line with
+    | none => "bad-op"
+    | some (a, b) =>
+      let m := RV.merge a b
+      let tie := decide (RedisVerif.C07.TieConsistent a b)
+      let wfa := decide a.WF
+      let wfb := decide b.WF
+      s!"{showRV m} tie={b01 tie} wf={b01 wfa}{b01 wfb}"
+  | "A" :: _ =>
+    match runP (do expect "A"; rv) line with
+    | some a => accessors a
+    | none => "bad-op"
+  | "C" :: _ =>
+    match runP (twoRV "C") line with
+    | none => "bad-op"
+    | some (a, b) =>
+      let t := match Crdt.tryMerge a.crdt b.crdt with
+        | some m => s!"ok {showCrdt m}"
+        | none => s!"err {a.crdt.typeName} {b.crdt.typeName}"
+      s!"try={t} | dep={showCrdt (Crdt.mergeDeprecated a.crdt b.crdt)} | mwt={showCrdt (Crdt.mergeWithTimestamps a.crdt b.crdt a.ts b.ts)} | eq={latticeEq a.crdt b.crdt}"
+  | "V" :: _ =>
+    match runP (do expect "V"; let a ← natMap; expect "|"; let b ← natMap; pure (a, b)) line with
+    | none => "bad-op"
+    | some (a, b) =>
+      let m := VClock.merge a b
+      s!"{showNatMap m} hb={b01 (VClock.happensBefore a b)}{b01 (VClock.happensBefore b a)} conc={b01 (VClock.concurrentWith a b)} eq={b01 (VClock.eq a b)} get={VClock.get m 1},{VClock.get m 2},{VClock.get m 3}"
+  | "K" :: _ =>
+    match runP (do expect "K"; let a ← stamp; expect "|"; let b ← stamp; pure (a, b)) line with
+    | none => "bad-op"
+    | some (a, b) =>
+      s!"cmp={Stamp.cmp a b} merge={showStamp (Stamp.mergeClock a b)} update={showStamp (a.update b)} tick={showStamp a.tick} max={showStamp (Stamp.max a b)}"
+  | "U" :: _ =>
+    match runP mutate line with
+    | some s => s
+    | none => "bad-op"
+  | _ => "bad-op"
 
 end RedisVerif.Driver.C07
